@@ -138,6 +138,11 @@ func TestEval(t *testing.T) {
 		{N1("!", many), U}, // whole-script reading true (1 != 5), per-comparison reading false
 		{N1("!", B("==", P(K("m"), W()), C(int64(7)))), T},
 		{B("&&", many, a1), T},
+		// the same multi-valued atom (one shared node) used twice: values are chosen per occurrence
+		// under the whole-script reading (true: 5 == 5 and !(1 == 5)), false per comparison: open
+		{B("&&", many, N1("!", many)), U},
+		{B("&&", many, many), T},
+		{B("<", P(K("m"), I(0)), P(K("m"), I(1))), T},
 		// value-returning operators at the top are outside the statement
 		{B("+", C(int64(1)), C(int64(1))), U}, {N1("length", P(K("m"))), U}, {P(K("t")), U},
 		// probes
